@@ -136,6 +136,12 @@ def set_rules(ctx):
                                 'shares that directory')), 'src/disk_store/storage.rs')
     lims = [int(n['rhs']['int']) for n in find(fn, 'binary') if n['op'] in ('>', '>=') and
             n['rhs'].get('k') == 'lit' and 'int' in n['rhs']]
+    # `name.truncate(N)` bounds the length as well (the cleaned name is ASCII only)
+    for mc in find(fn, 'mcall'):
+        if mc.get('method') == 'truncate' and mc.get('args'):
+            a0 = mc['args'][0]
+            if a0.get('k') == 'lit' and 'int' in a0:
+                lims.append(int(a0['int']))
     ctx.check('SET-2', 'sanitize_table_name|length-bound', bool(lims) and max(lims) + 2 + 64 <= 255,
               'cleaned name truncated to %s bytes (+ 2 separators + 64 hex digest <= 255)' % lims,
               'src/disk_store/storage.rs')
